@@ -81,7 +81,7 @@ Live_Returns == <>(st.pc = "done")
 \* the number of content operations / saves per behaviour.
 SmallDoc == {"table", "header", "footnote", "para", "image", "list"}
 LargeDoc == {"longtext", "midimage", "bigimage"}
-AllDoc   == {"openmin", "para", "heading", "longtext", "table", "image", "midimage", "header", "footer", "footnote", "list", "margins", "title", "style", "pad32k", "pad64k"}
+AllDoc   == {"openmin", "openrich", "para", "heading", "longtext", "table", "image", "midimage", "header", "footer", "footnote", "list", "margins", "title", "style", "pad32k", "pad64k"}
 AllMd    == {"mdpara", "mdheading", "mdlist", "mdtable", "mdlong"}
 Reg      == {"newdir", "existing"}
 G(g, doc, md, vias, targets, plan, points, edge, maxdoc, maxsaves) ==
@@ -95,7 +95,7 @@ AllGroups == {
   G("q-md-targets",  {}, AllMd, {"ConvertFile", "BatchConvert"}, Targets, "none", 0, 0, 1, 1),
   G("q-md-sweep",    {}, {"mdtable", "mdlong"}, {"ConvertFile"}, {"newdir"}, "sweep", 150, 64, 1, 1),
   G("q-resave",      {"para", "image", "title", "style"}, {}, {"Save"}, {"newdir", "existing", "device", "resave"}, "none", 0, 0, 2, 2),
-  G("q-opened",      {"openmin", "heading", "para", "style", "list"}, {}, {"Save"}, Reg, "none", 0, 0, 2, 1),
+  G("q-opened",      {"openmin", "openrich", "heading", "para", "style", "list"}, {}, {"Save"}, Reg, "none", 0, 0, 2, 1),
   G("q-random",      AllDoc, {}, {"Save"}, {"newdir", "existing", "device", "resave"}, "sweep", 60, 32, 8, 2),
   \* thorough tier
   G("t-sweep-all",   SmallDoc, {}, {"Save"}, Reg, "sweep", 0, 0, 1, 1),
@@ -104,7 +104,7 @@ AllGroups == {
   G("t-md-targets",  {}, AllMd, {"ConvertFile", "BatchConvert"}, Targets, "none", 0, 0, 2, 1),
   G("t-md-sweep",    {}, {"mdtable", "mdlong"}, {"ConvertFile", "BatchConvert"}, {"newdir"}, "sweep", 0, 0, 1, 1),
   G("t-resave",      {"para", "image", "header", "title", "style", "margins"}, {}, {"Save"}, {"newdir", "existing", "device", "resave"}, "none", 0, 0, 3, 3),
-  G("t-opened",      {"openmin", "heading", "para", "style", "list", "footnote", "header", "title"}, {}, {"Save"}, {"newdir", "existing", "device", "resave"}, "none", 0, 0, 3, 2),
+  G("t-opened",      {"openmin", "openrich", "heading", "para", "style", "list", "footnote", "header", "title"}, {}, {"Save"}, {"newdir", "existing", "device", "resave"}, "none", 0, 0, 3, 2),
   G("t-random",      AllDoc, {}, {"Save"}, {"newdir", "existing", "device", "resave"}, "sweep", 400, 128, 8, 3)}
 Groups == {x \in AllGroups : x.g \in GroupNames}
 
